@@ -46,6 +46,11 @@ std::vector<double> split_prob(Rng &rng, size_t k, double total, size_t nonzero)
 NoiseCase make_case(Rng &rng, int kind, Stats &st) {
     NoiseCase nc;
     std::vector<AppSpec> chains;
+    Rng side = rng.sub(777);   // later additions draw from here so that the older cases keep their circuits
+    // a chain may open with ELSE_CORRELATED_ERROR when nothing precedes it in the program: the flag starts cleared in every shot
+    bool leading_else = side.chance(0.35);
+    // HERALDED_ERASE on many targets: more heralds in one instruction than one 64-bit word of random bits serves
+    bool wide_herald = side.chance(0.25);
     auto p = [&]() { return rng.pick(grid()); };
     auto fresh = [&](size_t n) {
         std::vector<uint32_t> v;
@@ -86,7 +91,9 @@ NoiseCase make_case(Rng &rng, int kind, Stats &st) {
             std::vector<uint32_t> clean;
             for (auto t : prod) if (t & (TARGET_PAULI_X_BIT | TARGET_PAULI_Z_BIT)) clean.push_back(t);
             if (clean.empty()) clean.push_back(ts[0] | TARGET_PAULI_X_BIT);
-            nc.noise.safe_append_u(i == 0 ? "E" : "ELSE_CORRELATED_ERROR", clean, {p()});
+            bool opens_with_else = i == 0 && leading_else && chains.empty() && nc.noise.operations.empty();
+            nc.noise.safe_append_u(i == 0 && !opens_with_else ? "E" : "ELSE_CORRELATED_ERROR", clean, {p()});
+            if (opens_with_else) st.hit("channel.E_chain.opens_with_ELSE");
         }
         chains.push_back(spec);
         st.hit("channel.E_chain.len" + std::to_string(len));
@@ -145,6 +152,11 @@ NoiseCase make_case(Rng &rng, int kind, Stats &st) {
             if (rng.chance(0.4)) add_chain();
             break;
         case 4:
+            if (wide_herald) {
+                add_heralded(true, 40 + side.below(60));
+                st.hit("channel.HERALDED_ERASE.wide");
+                break;
+            }
             add_heralded(rng.chance(0.5), 1 + rng.below(3));
             if (rng.chance(0.3)) add_single("X_ERROR", {p()}, 1);
             break;
@@ -265,9 +277,27 @@ VH_AREA(noise) {
         } else {
             std::mt19937_64 srng(rng.next());
             auto ref = TableauSimulator<64>::reference_sample_circuit(c);
-            auto t = sample_batch_measurements<64>(c, ref, shots, srng, false);
-            for (size_t m = 0; m < nm; m++)
-                for (size_t s = 0; s < shots; s++) rec[s][m] = t[m][s];
+            Rng side = rng.sub(778);
+            if (side.chance(0.5)) {
+                // the path `stim sample` takes: one simulator reused for batches of at most 1024 shots, results written as b8
+                FILE *f = tmpfile();
+                if (!f) throw std::runtime_error("tmpfile failed");
+                sample_batch_measurements_writing_results_to_disk<64>(c, ref, shots, f, SampleFormat::SAMPLE_FORMAT_B8, srng);
+                rewind(f);
+                size_t bytes_per_shot = (nm + 7) / 8;
+                std::vector<uint8_t> buf(bytes_per_shot);
+                for (size_t s = 0; s < shots; s++) {
+                    if (fread(buf.data(), 1, bytes_per_shot, f) != bytes_per_shot) { out_x("batched sampling wrote too few bytes"); break; }
+                    for (size_t m = 0; m < nm; m++) rec[s][m] = (buf[m / 8] >> (m % 8)) & 1;
+                }
+                if (fgetc(f) != EOF) out_x("batched sampling wrote too many bytes");
+                fclose(f);
+                st.hit("cases.frame.batched_writer");
+            } else {
+                auto t = sample_batch_measurements<64>(c, ref, shots, srng, false);
+                for (size_t m = 0; m < nm; m++)
+                    for (size_t s = 0; s < shots; s++) rec[s][m] = t[m][s];
+            }
         }
         // ---- histograms
         size_t napps = nc.apps.size();
